@@ -145,6 +145,9 @@ structure Variant where
   literalAttrResolve : Bool := false
   /-- `C14-handler-own-bindings-first.diff`: `NamespacesHandler::getNamespace` / `copyExcludeResultPrefixes` -/
   handlerOwnFirst : Bool := false
+  /-- `C14-attribute-xml-prefix-exact.diff`: ElemAttribute reserves exactly the prefixes `xml` / `xmlns`, not every name
+  that starts with "xml"; `xml:` with another namespace is re-prefixed -/
+  xmlPrefixExact : Bool := false
 deriving Repr, DecidableEq
 
 /-- the part of `XSLTEngineImpl` the property is about -/
@@ -259,7 +262,7 @@ def prefixEq (p q : String) : Bool := q.toList.isPrefixOf p.toList
 
 /-- branch taken by `ElemAttribute::startElement`, reported by the driver for classification -/
 inductive ABranch where
-  | nsEmpty | nsReuse | nsReuseShadowed | nsKeep | nsConflictNew | nsNoPrefixNew | nsXmlnsNew
+  | nsEmpty | nsReuse | nsReuseShadowed | nsKeep | nsKeepXml | xmlLikeName | nsConflictNew | nsNoPrefixNew | nsXmlnsNew
   | plain | xmlName | noNsUnbound | noNsConflictDecl | noNsConflictNoDecl | noNsDecl | noNsBound | noNsPrefixUnbound
   | notPending | invalid
 deriving DecidableEq, Repr
@@ -271,10 +274,20 @@ def St.attrReuse (s : St) (name : QN) (ns : String) : Option String :=
   | some p => if p ≠ "" && (name.pfx = "" || prefixEq p name.pfx) then some p else none
   | none => none
 
+/-- `fPrefixIsXMLNS`: the prefix of the name cannot be declared, so it cannot be used for the attribute
+(`xmlns`; with `C14-attribute-xml-prefix-exact.diff` also `xml`) -/
+def St.attrPrefixUnusable (s : St) (name : QN) : Bool :=
+  name.pfx = "xmlns" || (s.v.xmlPrefixExact && name.pfx = "xml")
+
+/-- the test that sends a name without namespace attribute past all prefix handling: the code first analysed asks
+`startsWith(name, "xml")` (so `xmlq:a`, `xmlfoo` … qualify), the repaired code asks for the prefix `xml` exactly -/
+def St.attrIsXmlName (s : St) (name : QN) : Bool :=
+  if s.v.xmlPrefixExact then name.pfx = "xml" else (name.str.toList.take 3 == "xml".toList)
+
 /-- `ElemAttribute.cpp:229-251`: the given prefix means another namespace in the result and is in use by
 the pending element -/
 def St.attrNsConflict (s : St) (name : QN) (ns : String) : Bool :=
-  name.pfx ≠ "" && name.pfx ≠ "xmlns" &&
+  name.pfx ≠ "" && !s.attrPrefixUnusable name &&
     (match s.resultNs name.pfx with
      | some u => u ≠ ns && s.isPendingResultPrefix name.pfx
      | none => false)
@@ -301,6 +314,8 @@ def St.elemAttribute (s : St) (name : QN) (nsAvt : Option String) (ssNs : Option
     if s.v.lateAttrCheck && !s.isElementPending then (s, .notPending)
     else if attrNameSpace = "" then
       ((s.addResultAttribute ⟨"", name.loc⟩ value), .nsEmpty)
+    else if s.v.xmlPrefixExact && name.pfx = "xml" && attrNameSpace = xmlURI then
+      (s.addResultAttribute name value, .xmlName)       -- `xml:lang` with its own namespace given explicitly
     else
       match s.attrReuse name attrNameSpace with
       | some p =>
@@ -308,17 +323,20 @@ def St.elemAttribute (s : St) (name : QN) (nsAvt : Option String) (ssNs : Option
         (s.addResultAttribute ⟨p, name.loc⟩ value,
           if s.resultNs p = some attrNameSpace then .nsReuse else .nsReuseShadowed)
       | none =>
-        if name.pfx ≠ "" && name.pfx ≠ "xmlns" && !s.attrNsConflict name attrNameSpace then
-          ((s.addResultAttribute ⟨"xmlns", name.pfx⟩ attrNameSpace).addResultAttribute name value, .nsKeep)
+        if name.pfx ≠ "" && !s.attrPrefixUnusable name && !s.attrNsConflict name attrNameSpace then
+          -- `.nsKeepXml`: the prefix `xml` is kept although it cannot be declared for this namespace (known finding)
+          ((s.addResultAttribute ⟨"xmlns", name.pfx⟩ attrNameSpace).addResultAttribute name value,
+            if name.pfx = "xml" then .nsKeepXml else .nsKeep)
         else
           (((s.unique.2.addResultAttribute ⟨"xmlns", s.unique.1⟩ attrNameSpace).addResultAttribute
               ⟨s.unique.1, name.loc⟩ value),
             if s.attrNsConflict name attrNameSpace then .nsConflictNew
-            else if name.pfx = "xmlns" then .nsXmlnsNew else .nsNoPrefixNew)
+            else if s.attrPrefixUnusable name then .nsXmlnsNew else .nsNoPrefixNew)
   | none =>
     if s.isElementPending && name ≠ ⟨"", "xmlns"⟩ then
-      if (name.str.toList.take 3 == "xml".toList) then
-        (s.addResultAttribute name value, .xmlName)
+      if s.attrIsXmlName name then
+        -- `.xmlLikeName`: a prefix that merely starts with "xml" gets no prefix handling at all (known finding)
+        (s.addResultAttribute name value, if name.pfx = "" || name.pfx = "xml" then .xmlName else .xmlLikeName)
       else if name.pfx = "" then
         (s.addResultAttribute name value, .plain)
       else
